@@ -3,6 +3,7 @@ package main
 // Calls: conversions, builtins, library models, contracts at call sites, inlining.
 
 import (
+	"runtime"
 	"fmt"
 	"go/ast"
 	"go/token"
@@ -106,6 +107,10 @@ func (fr *frame) evalCall(st *State, call *ast.CallExpr) []*Value {
 		panic(unsupported("call of " + exprString(call.Fun)))
 	}
 	sig := fn.Type().(*types.Signature)
+	if fn.Pkg() == nil && fn.Name() == "Error" {
+		// error.Error(): the message text is not modelled
+		return fr.opaqueResults(st, sig, "errmsg")
+	}
 	if fr.fc.reg.isNoEffect(fn.FullName()) {
 		// dropped call: evaluate the arguments (they may contain checked operations), pack nothing
 		for _, a := range call.Args {
@@ -956,6 +961,14 @@ func (fr *frame) applyContract(st *State, call *ast.CallExpr, fn *types.Func, c 
 
 func (fr *frame) applyContractSig(st *State, call *ast.CallExpr, name string, sig *types.Signature, pkg interface{}, c *FuncContract, recv *Value, args []*Value) []*Value {
 	fc := fr.fc
+	defer func() {
+		if r := recover(); r != nil {
+			if _, isRT := r.(runtime.Error); isRT {
+				panic(fmt.Sprintf("internal error while applying the contract of %s: %v", name, r))
+			}
+			panic(r)
+		}
+	}()
 	p := fr.pkg
 	if pp, ok := pkg.(*packagesPackage); ok && pp != nil {
 		p = pp
